@@ -92,9 +92,13 @@ Verdict(c) ==
       [] OTHER             -> <<"REJECT", "UnknownOp", c.op>>
 
 ----------------------------------------------------------------------------
+\* generic clauses of every recorded call: the caller's arrays come back untouched; an exception is an event
+Guarded(c) == IF "inmod" \in DOMAIN c /\ c.inmod THEN <<"REJECT", "InputsUnmodified", "">>
+              ELSE IF "exc" \in DOMAIN c /\ c.exc # "" THEN <<"REJECT", "NoException", c.exc>>
+              ELSE Verdict(c)
 Init == k \in 1..Len(Cases) /\ v = "todo"
 Next == /\ v = "todo"
-        /\ LET r == Verdict(Cases[k]) IN
+        /\ LET r == Guarded(Cases[k]) IN
               /\ PrintT(<<"V", k, r[1], r[2], r[3]>>)
               /\ v' = r[1]
         /\ UNCHANGED k
